@@ -132,6 +132,28 @@ fn judge_value(v: &A1, rec: &mut Recorder) {
             (a, b)
         });
         rec.events(2);
+        // ... or into a sink that panics part-way, the panic being caught (a worker pool that
+        // survives a panicking task)
+        if room % 3 == 0 {
+            struct Bomb(usize);
+            impl std::fmt::Write for Bomb {
+                fn write_str(&mut self, s: &str) -> std::fmt::Result {
+                    if s.len() > self.0 {
+                        panic!("sink full");
+                    }
+                    self.0 -= s.len();
+                    Ok(())
+                }
+            }
+            let _ = guard(|| {
+                use std::fmt::Write;
+                let mut b = Bomb(room);
+                let _ = write!(b, "{}", to_ppp(v));
+                let _ = write!(b, "{}", to_ppp(&A1::Tcp4 { src: [7, 7, 7, 7], dst: [6, 6, 6, 6], sp: 7, dp: 6 }));
+            });
+            rec.events(2);
+            rec.class("history:formatted-into-a-panicking-sink-first", || case.clone());
+        }
         match r {
             Ok(_) => rec.class("history:formatted-into-a-failing-sink-first", || case.clone()),
             Err(m) => rec.violation("panic", case.clone(), "failing-sink".into(), format!("Display into a failing sink panicked: {}", m)),
@@ -340,9 +362,20 @@ impl Monitor for C08 {
             stream("c08-v4-destinations-s", tier.n(10, 200_000, 1 << 28)),
             stream("v1-mut", tier.n(50, 100_000, 10_000_000)),
             stream("v1-eol", tier.n(20, 50_000, 5_000_000)),
+            exhaustive("calling-context", 2),
         ]
     }
     fn run_case(&self, stream: &str, idx: u64, seed: u64, rec: &mut Recorder) {
+        if stream == "calling-context" {
+            // the same calls from an ordinary place, a second time, and from a thread-local
+            // destructor at thread exit (pure functions do not depend on where they are called)
+            let _ = (idx, seed);
+            if spec::engine::layer().starts_with("miri") {
+                return;
+            }
+            crate::adapt::judge_context(&["C08"], rec);
+            return;
+        }
         let mut rng = Rng::for_case(seed, stream_id(stream), idx);
         let rng = &mut rng;
         match stream {
